@@ -905,6 +905,8 @@ fn normalize_options<'a>(
 
 fn do_xargs(args: &[&str]) -> Result<CommandResult, XargsError> {
     let matches = clap::Command::new("xargs")
+        // An option may be repeated; the last occurrence counts.
+        .args_override_self(true)
         .version(crate_version!())
         .about("Run commands using arguments derived from standard input")
         .arg(
